@@ -298,6 +298,36 @@ def mutants(doc):
     return out
 
 
+# systematic sweep: every byte value 0x00..0xFF at every syntactic position class of the reader
+# ({X} = the swept byte).  Independent of the random streams; 256 x len(SWEEP) files.
+SWEEP = [
+    ("file_start", b"{X}<a/>"), ("after_lt", b"<{X}"), ("name_start", b"<{X}a/>"), ("name_start_only", b"<{X}>t</{X}>"),
+    ("name_cont", b"<a{X}b/>"), ("name_last", b"<a{X}/>"), ("name_cont_open", b"<a{X}>t</a{X}>"),
+    ("after_name_ws", b"<a {X}/>"), ("attr_name_start", b"<a {X}b=\"v\"/>"), ("attr_name_cont", b"<a b{X}c='v'/>"),
+    ("attr_name_last", b"<a b{X}=\"v\"/>"), ("before_eq", b"<a b {X}=\"v\"/>"), ("after_eq", b"<a b={X}\"v\"/>"),
+    ("instead_of_quote", b"<a b={X}v\"/>"), ("in_dquotes", b"<a b=\"v{X}w\"/>"), ("in_squotes", b"<a b='v{X}w'/>"),
+    ("value_only", b"<a b=\"{X}\"/>"), ("after_backslash", b"<a b=\"\\{X}\" c='\\{X}'/>"), ("value_unterminated", b"<a b='v{X}"),
+    ("after_value", b"<a b=\"v\"{X}c='w'/>"), ("after_slash", b"<a/{X}>"), ("instead_of_gt", b"<a/{X}"), ("after_gt", b"<a>{X}</a>"),
+    ("text_start", b"<a>{X}u</a>"), ("text_mid", b"<a>t{X}u</a>"), ("text_end", b"<a>t{X}</a>"), ("text_end_ws", b"<a>t{X} \t</a>"),
+    ("text_only_at_eof", b"<a> {X}"), ("after_child", b"<a><b/>{X}</a>"), ("close_after_lt_slash", b"<a></{X}>"),
+    ("close_name_start", b"<a></{X}a>"), ("close_name_cont", b"<ab></a{X}b>"), ("close_name_last", b"<a></a{X}>"),
+    ("comment_body", b"<!--{X}--><a/>"), ("comment_body_in_node", b"<a><!-{X}-></a>"), ("comment_after_bang", b"<!{X}--><a/>"),
+    ("comment_close", b"<a><!--c-{X}></a>"), ("comment_unterminated", b"<!-- {X}"), ("header_after_xml", b"<?xml{X}?><a/>"),
+    ("header_prop_start", b"<?xml {X}v=\"1\"?><a/>"), ("header_prop_cont", b"<?xml v{X}='1' w=\"2\"?><a/>"),
+    ("header_value", b"<?xml version=\"{X}\"?><a/>"), ("header_before_close", b"<?xml v='1'{X}?><a/>"),
+    ("header_close", b"<?xml v='1'?{X}<a/>"), ("after_header", b"<?xml?>{X}<a/>"), ("between_top_nodes", b"<a/>{X}<b/>"),
+    ("file_end", b"<a/>{X}"), ("lone", b"{X}"),
+]
+
+
+def sweep_cases():
+    out = []
+    for (pos, tpl) in SWEEP:
+        for x in range(256):
+            out.append((pos, tpl.replace(b"{X}", bytes([x]))))
+    return out
+
+
 def load_corpus(ctx):
     p = os.path.join(ctx.verif, "corpus", "C16", "docs.txt")
     docs = []
@@ -483,6 +513,12 @@ def run(ctx):
                     seen.add(m)
                     cases.append(("trunc", m, None, 0))
                     ntrunc += 1
+    # systematic position x byte sweep (all 256 byte values at every position class)
+    sweep = sweep_cases()
+    for (pos, b) in sweep:
+        cases.append(("sweep", b, None, 0))
+    ctx.cov["sweep_positions"] = [pos for (pos, _) in SWEEP]
+    ctx.cov["sweep_files"] = len(sweep)
     # 3. random bytes over the mutation alphabet
     nrand = ctx.pick(3000, 30000)
     alpha = b"".join(MUT_ALPHABET) + b"<<>>/\"'=ab  "
@@ -527,13 +563,15 @@ def run(ctx):
     ctx.cov["outcome_histogram"] = hist
     ctx.cov["input_size_histogram"] = {str(k): v for k, v in sorted(sizes.items())}
     ctx.cov["case_mix"] = {"random_trees": sum(1 for c in cases if c[0] == "tree"), "corpus_docs": len(corpus),
-                           "mutants": nmut, "truncations_of_random_trees": ntrunc, "random_bytes": nrand}
+                           "mutants": nmut, "truncations_of_random_trees": ntrunc, "position_x_byte_sweep": len(sweep), "random_bytes": nrand}
     ctx.cov["mismatches"] = len(mism)
     ctx.cov["crashes"] = len(crashes)
     ctx.rule = ("files through the real readXML (one ASan+UBSan harness process) and the extracted model: random trees (depth<=5, fan-out<=4) "
                 "rendered by the EXTRACTED Coq render_doc with random layouts (header forms, both quote styles, escapes, self-closing/open-close, "
                 "comments, all white characters, trailing isspace characters; all inside wf_doc, the premise of parse_render) checked against "
-                "the extracted doc_of; every truncation of 250 (thorough 2500) further rendered trees; every truncation and single-byte delete/insert/replace "
+                "the extracted doc_of; a systematic sweep of every byte value 0x00..0xFF at each of 48 syntactic position classes (name start/continuation, "
+                "after '<' and '</', attribute name, around '=', inside both quote styles, after a backslash, text start/middle/end, comment, "
+                "header, between top-level nodes, file start/end); every truncation of 250 (thorough 2500) further rendered trees; every truncation and single-byte delete/insert/replace "
                 "(alphabet < > / \" ' = ! - ? \\ NUL space letter VT) of the corpus documents; random bytes over that alphabet. "
                 "non-trivial = rendered tree with >= 2 nodes, or malformed file that still yields >= 2 nodes")
     for i in (0, 1):
@@ -580,6 +618,9 @@ def run(ctx):
                     "modelled, not verified: fopen/ftell/fread (file -> NUL-terminated buffer), std::string/std::map/std::vector, "
                     "isalpha/isdigit/isspace of the C locale, native stack depth of the parseNode recursion"]
     ctx.assumptions += ["the file is a regular file that fits in memory; nesting depth small enough for the native stack",
-                        "C locale character classes; bytes >= 128 belong to no class"]
+                        "C locale character classes; bytes >= 128 belong to no class",
+                        "XML.cpp passes a plain char (negative for bytes >= 0x80) to isalpha/isdigit/isspace: undefined by the C standard, defined "
+                        "by glibc (its tables cover -128..255); the position x byte sweep runs all 256 byte values through every such call site "
+                        "under ASan+UBSan and finds no report and the model's answer (no class) on this platform"]
     if ctx.thorough():
         ctx.coq_thorough_chk(["C16.Properties", "C16.PropertiesFacts"])
